@@ -459,14 +459,77 @@ package fit
 //@   loop 0 decreases len(def.fields) - rangeindex
 //@   loop 0 dispatches writeField
 
-//@@ assumed (reflection: NumField, Kind, IsNil, comparison of boxed values): the definition lists profile fields of
-//@@ the message that mesg views, under the local type asked for
-//@ func getEncodeMesgDef(mesg reflect.Value, localMesgNum byte) (r *encodeMesgDef)
+//@@ assumed (a loop over the global table of reflect.Type values, compared with ==; the table itself is checked by the
+//@@ closed obligations msgsTypes#injective and knownMsgNums.<m>#type): the struct type of a known message is found
+//@@ under its number
+//@ func getGlobalMesgNum(t reflect.Type) (r MesgNum)
 //@   props C05 C06 C07
 //@   trusted
-//@   requires rvvalid(mesg) && rvmt(mesg) < 0xFF00 && rvismsg(mesg, rvmt(mesg)) && knownMsgNums[MesgNum(rvmt(mesg))]
-//@   ensures r != nil && fresh(r) && enc_def_of(r) && r.localMesgNum == localMesgNum && int(r.globalMesgNum) == rvmt(mesg)
+//@   ensures [msg] rtypemsg(t) >= 0 && rtypemsg(t) < 0xFF00 && knownMsgNums[MesgNum(rtypemsg(t))] ==> int(r) == rtypemsg(t)
 //@   assigns nothing
+
+//@ func profileFieldDef(m MesgNum) (r [256]*field)
+//@   props C05 C06 C07
+//@   requires int(m) < len(_fields)
+//@   ensures [rows] forall n in 0..256 :: r[n] == pf(m, byte(n))
+//@   assigns nothing
+
+//@@ the profile row of a struct field: the first row with that struct index, else row 255
+//@ func getFieldBySindex(index int, fields [256]*field) (r *field)
+//@   props C05 C06 C07
+//@   locals rangeindex int
+//@   requires [nums] forall n in 0..256 :: fields[n] != nil ==> int(fields[n].num) == n
+//@   ensures [hit] forall n in 0..256 :: (fields[n] != nil && fields[n].sindex == index ==> r != nil && r.sindex == index && r == fields[int(r.num)])
+//@   ensures [miss] (forall n in 0..256 :: !(fields[n] != nil && fields[n].sindex == index)) ==> r == fields[255]
+//@   assigns nothing
+//@   loop 0 invariant [range] -1 <= rangeindex && rangeindex < 256
+//@   loop 0 invariant [none] forall n in 0..rangeindex+1 :: !(fields[n] != nil && fields[n].sindex == index)
+//@   loop 0 decreases 256 - rangeindex
+
+//@@ every struct field of a message has a profile row, and rows sit under their own field number
+//@ lemma numfield_bound(m MesgNum)
+//@   props C05 C06 C07 C15
+//@   reveal tables, rvtables
+//@   concl knownMsgNums[m] ==> int(m) < len(_fields) && rvNumField(int(m)) <= 255
+//@ lemma sindex_row(m MesgNum, i int)
+//@   props C05 C06 C07 C15
+//@   reveal tables, rvtables
+//@   timeout 60
+//@   concl knownMsgNums[m] && 0 <= i && i < rvNumField(int(m)) ==> 0 <= rvRow(int(m), i) && rvRow(int(m), i) < 256 && pfound(m, byte(rvRow(int(m), i))) && pf(m, byte(rvRow(int(m), i))).sindex == i && int(pf(m, byte(rvRow(int(m), i))).num) == rvRow(int(m), i) && byte(pf(m, byte(rvRow(int(m), i))).t)&0x1F <= 16
+//@ lemma rows_numbered(m MesgNum)
+//@   props C05 C06 C07 C15
+//@   reveal tables
+//@   timeout 120
+//@   concl forall n in 0..256 :: pfound(m, byte(n)) ==> int(pf(m, byte(n)).num) == n && byte(pf(m, byte(n)).t)&0x1F <= 16
+
+//@@ the definition lists profile fields of the message that mesg views, under the local type asked for (which of
+//@@ the fields it lists - the ones that are not invalid - is not specified: comparison of boxed values)
+//@ func getEncodeMesgDef(mesg reflect.Value, localMesgNum byte) (r *encodeMesgDef)
+//@   props C05 C06 C07
+//@   use numfield_bound(MesgNum(rvmt(mesg)))
+//@   use rows_numbered(MesgNum(rvmt(mesg)))
+//@   requires rvvalid(mesg) && rvmt(mesg) < 0xFF00 && rvismsg(mesg, rvmt(mesg)) && knownMsgNums[MesgNum(rvmt(mesg))]
+//@   ensures [def] r != nil && fresh(r) && r.localMesgNum == localMesgNum && int(r.globalMesgNum) == rvmt(mesg)
+//@   ensures [count] len(r.fields) <= 255
+//@   ensures [fields] enc_def_of(r)
+//@@ struct fields are listed in struct order, each at most once
+//@   ensures [ordered] forall k in 0..len(r.fields) :: (forall j in 0..k :: r.fields[j].sindex < r.fields[k].sindex)
+//@   assigns nothing
+//@   locals i int, def *encodeMesgDef, fval reflect.Value
+//@   patterns inner
+//@   loop 0 invariant [range] 0 <= i && i <= rvNumField(rvmt(mesg))
+//@   loop 0 invariant [def] def != nil && fresh(def) && def.localMesgNum == localMesgNum && int(def.globalMesgNum) == rvmt(mesg)
+//@   loop 0 invariant [fresh-fields] fresh(def.fields) && offset(def.fields) == 0
+//@   loop 0 invariant [len] len(def.fields) <= i
+//@   loop 0 invariant [listed] forall k in 0..len(def.fields) :: def.fields[k] != nil && byte(def.fields[k].t)&0x1F <= 16 && def.fields[k] == pf(def.globalMesgNum, def.fields[k].num)
+//@   loop 0 invariant [below] forall k in 0..len(def.fields) :: def.fields[k].sindex < i
+//@   loop 0 invariant [ordered] forall k in 0..len(def.fields) :: (forall j in 0..k :: def.fields[j].sindex < def.fields[k].sindex)
+//@   loop 0 assigns def.fields, def.fields[..]
+//@   loop 0 decreases rvNumField(rvmt(mesg)) - i
+//@   loop 0 use sindex_row(MesgNum(rvmt(mesg)), i)
+//@   loop 1 invariant [none] 0 <= i
+//@   loop 1 assigns nothing
+//@   loop 1 decreases rvlen(fval) - i
 
 //@ ghost func ndefs(e *encoder) int
 
@@ -885,7 +948,7 @@ package fit
 //@ lemma field_nums(m MesgNum)
 //@   props C12 C15
 //@   reveal tables
-//@   concl forall n byte :: pfound(m, n) ==> pf(m, n).num == n
+//@   concl forall n in 0..256 :: pfound(m, byte(n)) ==> int(pf(m, byte(n)).num) == n && byte(pf(m, byte(n)).t)&0x1F <= 16
 //@ lemma ts_field_distinct(m MesgNum)
 //@   props C12 C15
 //@   reveal tables
